@@ -198,18 +198,27 @@ Proof.
     + intros _ _. apply IH; [exact Hb|]. apply adv_ok; [exact Hc1|lia].
 Qed.
 
-Lemma safe_dec_ultrazip rx ry rw rh : safeD D0 (fun _ => True) (dec_ultrazip rx ry rw rh).
+Definition D09 : Z -> Z -> Z -> Prop := fun _ _ fx => Z.testbit fx 0 = true /\ Z.testbit fx 9 = true.
+
+Lemma safeD_weaken0 (D D' : Z -> Z -> Z -> Prop) {A} (P : A -> Prop) m :
+  (forall W H fx, D' W H fx -> D W H fx) -> safeD D P m -> safeD D' P m.
+Proof. intros HD Hm s ts Hs H'. apply Hm; auto. Qed.
+
+Lemma safe_dec_ultrazip rx ry rw rh : safeD D09 (fun _ => True) (dec_ultrazip rx ry rw rh).
 Proof.
   unfold dec_ultrazip. apply safeD_bind_get. intros s Hs HD ts.
-  match goal with |- match ?m s ts with _ => _ end => assert (G : safeD D0 (fun _ => True) m); [|exact (G s ts Hs HD)] end.
+  match goal with |- match ?m s ts with _ => _ end => assert (G : safeD D09 (fun _ => True) m); [|exact (G s ts Hs HD)] end.
   eapply safeD_bind; [auto with snd|auto with frm|apply safeD_of_safe; apply safe_rd_lblock|].
   intros data Hd. cbv zeta.
   destruct (ry + rw * 65535 =? 0); [apply safeD_fail|].
+  destruct (2 ^ 31 <=? ry + rw * 65535 + 504).
+  { destruct HD as [_ F9]. unfold fixed. rewrite F9. apply safeD_fail. }
   set (cap := if c_rawsz s <? ry + rw * 65535 + 500 then round4 (ry + rw * 65535 + 500) else c_rawsz s).
   eapply safeD_bind; [auto with snd|frm|apply safeD_of_safe; apply safe_upd|]. intros _ _.
   destruct (Z.ltb_spec cap (zlen data)); [apply safeD_fail|].
-  apply safe_ultrazip_walk; [destruct Hs as [_ [Hb _]]; lia|].
-  unfold cur_ok. cbn [bc_data bc_pos]. split; [exact Hd|lia].
+  eapply safeD_weaken0; [|apply safe_ultrazip_walk; [destruct Hs as [_ [Hb _]]; lia|]].
+  - intros W0 H0 fx [F0 _]. exact F0.
+  - unfold cur_ok. cbn [bc_data bc_pos]. split; [exact Hd|lia].
 Qed.
 
 (* ---------------------------------------------------------------- rows that fit *)
@@ -493,7 +502,7 @@ Qed.
 
 (* ---------------------------------------------------------------- the rectangle dispatcher of the repaired flow *)
 Definition DF : Z -> Z -> Z -> Prop := fun _ _ fx =>
-  Z.testbit fx 0 = true /\ Z.testbit fx 1 = true /\ Z.testbit fx 2 = true /\ Z.testbit fx 3 = true.
+  Z.testbit fx 0 = true /\ Z.testbit fx 1 = true /\ Z.testbit fx 2 = true /\ Z.testbit fx 3 = true /\ Z.testbit fx 9 = true.
 Definition fixed0123 (s : cst) : Prop := DF (c_w s) (c_h s) (c_fix s).
 
 (* the encodings whose repaired decoders are not covered by THIS file: TRLE, ZRLE (see CliSafeZ.v) *)
@@ -541,12 +550,12 @@ Proof.
   destruct (enc =? cE_Ultra); [destruct ok; apply safeD_of_safe; [apply safe_dec_ultra; assumption|apply safe_ret; exact I]|].
   destruct (Z.eqb_spec enc cE_UltraZip).
   { destruct ok; [|apply safeD_ret; exact I].
-    eapply safeD_weaken; [|apply safe_dec_ultrazip]. intros W H fx [(F0 & _) _]. exact F0. }
+    eapply safeD_weaken; [|apply safe_dec_ultrazip]. intros W H fx [(F0 & _ & _ & _ & F9) _]. split; assumption. }
   destruct (enc =? cE_Zlib); [destruct ok; apply safeD_of_safe; [apply safe_dec_zlib; assumption|apply safe_ret; exact I]|].
   destruct (Z.eqb_spec enc cE_Tight).
   { destruct ok; [|apply safeD_ret; exact I].
     eapply safeD_weaken; [|apply safe_dec_tight; assumption].
-    intros W H fx [(_ & F1 & F2 & F3) [-> ->]]. unfold DT. repeat split; auto.
+    intros W H fx [(_ & F1 & F2 & F3 & _) [-> ->]]. unfold DT. repeat split; auto.
     - destruct (Z.eqb_spec enc cE_UltraZip); [contradiction|]. cbn [negb andb] in Echk. lia.
     - destruct (Z.eqb_spec enc cE_UltraZip); [contradiction|]. cbn [negb andb] in Echk. lia. }
   destruct (enc =? cE_QemuExtendedKeyEvent); [apply safeD_ret; exact I|apply safeD_fail].
